@@ -108,6 +108,17 @@ let clauses_raw h (impl : string) : (string * bool) list =
     let ih = parse_impl impl in
     let cs = parse_calls (get ih "calls") in
     let err = get ih "err" in
+    (* replace_twice: the adapter is used for the same diff twice; both halves of the log must be the same script,
+       and that script is judged like the one of stack replace *)
+    let rec split_fin acc = function
+      | [] -> (List.rev acc, [])
+      | CFin :: r -> (List.rev (CFin :: acc), r)
+      | c :: r -> split_fin (c :: acc) r
+    in
+    let twice = stack = "replace_twice" in
+    let h1, h2 = if twice then split_fin [] cs else (cs, cs) in
+    let cs = if twice then h2 else cs in
+    let stack = if twice then "replace" else stack in
     let ops = calls_to_ops cs in
     match fail with
     | Some k ->
@@ -116,7 +127,7 @@ let clauses_raw h (impl : string) : (string * bool) list =
         [ ("no_panic", true);
           ("abort", if err = "1" then len = k + 1 else err = "0" && len <= k) ]
     | None -> (
-        let base = [ ("no_panic", true); ("no_error", err = "0") ] in
+        let base = [ ("no_panic", true); ("no_error", err = "0") ] @ (if twice then [ ("twice_same", h1 = h2) ] else []) in
         match stack with
         | "none" | "mutref" ->
             base
@@ -278,6 +289,16 @@ let clauses_adapter h (impl : string) : (string * bool) list =
     let ih = parse_impl impl in
     let cs = parse_calls (get ih "calls") in
     let err = get ih "err" in
+    (* replace_twice: the script is fed twice to one Replace adapter; both halves of the log must agree *)
+    let rec split_fin acc = function
+      | [] -> (List.rev acc, [])
+      | CFin :: r -> (List.rev (CFin :: acc), r)
+      | c :: r -> split_fin (c :: acc) r
+    in
+    let twice = stack = "replace_twice" && fail = None in
+    let h1, h2 = if twice then split_fin [] cs else (cs, cs) in
+    let cs = if twice then h2 else cs in
+    let stack = if twice then "replace" else stack in
     let ops = calls_to_ops cs in
     let inp = calls_to_ops script in
     match fail with
@@ -291,6 +312,7 @@ let clauses_adapter h (impl : string) : (string * bool) list =
            if stack = "nofinish" || stack = "replace_nofinish" then not (List.mem CFin cs) else check_finish_last cs);
           ("ops_loose", check_ops_loose orc.o_on (n os) (n oe) (n ns) (n ne) ops);
           ("cost_kept", deleted ops = deleted inp && inserted ops = inserted inp) ]
+        @ (if twice then [ ("twice_same", h1 = h2) ] else [])
         @ (if stack = "mutref" then [ ("forwards_unchanged", cs = script) ] else [])
         @ (if stack = "nofinish" then [ ("forwards_unchanged", cs = List.filter (fun c -> c <> CFin) script) ] else [])
         @ (if stack = "compact_replace" then [ ("normal", check_normal orc.o_on ops) ] else [])
